@@ -1,0 +1,16 @@
+//go:build verif
+
+package cmd
+
+import "sync/atomic"
+
+// verifYieldHook, when set, is called at named points between atomic steps of
+// the reload admission/release code so that a runtime-verification harness can
+// order them against racing goroutines. It is never called with a mutex held.
+var verifYieldHook atomic.Pointer[func(point string)]
+
+func verifYield(point string) {
+	if f := verifYieldHook.Load(); f != nil {
+		(*f)(point)
+	}
+}
